@@ -372,25 +372,8 @@ def _install():
             return self.subn(pattern, repl, string, count, flags)[0]
 
         def subn(self, pattern, repl, string, count=0, flags=0):
-            if not _is_sym(string) or os.environ.get('SYMX_RELIB_SUB'):
-                return re.subn(pattern, repl, string, count=count, flags=flags)
-            out, pos, n = "", 0, 0
-            for m in re.finditer(_rw(pattern), string, flags):
-                if count and n >= count:
-                    break
-                if callable(repl):
-                    r = repl(_FlatMatch(m))
-                elif chr(92) not in repl:
-                    r = repl
-                elif repl == chr(92) * 2:
-                    r = chr(92)
-                else:
-                    raise NotImplementedError("sub shim: template %r" % (repl,))
-                out = out + string[pos:m.start()] + r
-                pos = m.end()
-                n += 1
-            out = out + string[pos:]
-            return flatten(out), n
+            # -> re.subn -> compiled pattern -> p_subn below (one implementation for both entry points)
+            return re.subn(pattern, repl, string, count=count, flags=flags)
 
     # ---- the same rebuilt operations at the level of compiled patterns: code that precompiles its internal regexes
     #      (`from re import compile`, module-level `X = re.compile(..)`) reaches re.Pattern.sub / findall / split / finditer
@@ -445,15 +428,16 @@ def _install():
     def p_subn(self, repl, string, count=0):
         if os.environ.get('SYMX_RELIB_SUB'):
             return stock["subn"](self, repl, string, count)
-        if not _is_sym(string):
-            if callable(repl) or not _is_sym(repl):
-                return _real("subn", self, repl, string, count)
-            return _real("subn", self, realize(repl), string, count)
+        with NoTracing():           # (the builtin callable() is patched to realise its argument)
+            is_fn = not isinstance(repl, (str, AnySymbolicStr))
+        if not _is_sym(string) and (is_fn or not _is_sym(repl)):
+            return _real("subn", self, repl, string, count)
+        # symbolic subject, or a symbolic replacement text spliced into a concrete subject (group renaming)
         out, pos, n = "", 0, 0
-        for m in stock["finditer"](_rwp(self), string):
+        for m in p_finditer(_rwp(self), string):
             if count and n >= count:
                 break
-            if callable(repl):
+            if is_fn:
                 r = repl(_FlatMatch(m))
             elif chr(92) not in repl:
                 r = repl
